@@ -87,19 +87,22 @@ PROPS = {
     },
     "C15": {
         "kani": ["ext_try_from_u8_exact:kani-complete"],
-        "units": ["codec", "ctors"],
+        "units": ["codec", "ctors", "lemmas_codec", "prove"],
         "design_ref": "DESIGN.md section 7, C15",
         "technique": "contract-based deductive verification (Verus) of the real from_bytes / to_bytes (closures, chunks_exact, itertools tuples modelled by verified adapters); iff-acceptance for byte strings of every length",
         "claim": "from_bytes(b) is proved to return Ok exactly when b[0] is an extension degree d in 1..=6, the remainder is 5+d+2k 32-byte elements with k >= 1 and no trailing "
                  "bytes, and the d leading and the two response scalars are canonical; on success every field is the corresponding 32-byte slot (d1, A, A1, B, r1, s1, "
                  "every L_j/R_j), for byte strings of every length. to_bytes(p) is proved to equal the layout function enc(p) (degree byte, d1, A, A1, B, r1, s1, interleaved L/R). "
-                 "extension_degree_from_proof_bytes and ExtensionDegree::try_from(u8) are exact. The serde wrappers (two forwarding calls behind serde's generic machinery) are not "
-                 "under contract.",
+                 "extension_degree_from_proof_bytes and ExtensionDegree::try_from(u8) are exact. Pure lemmas over these contracts: enc(p) has length 1 + 32*(5 + d + 2k); decoding then "
+                 "re-encoding returns the identical bytes; the encoding of a well-formed proof is accepted and decodes to the same proof field by field; every proof the prover "
+                 "outputs with bits*aggregation >= 2 is well-formed (shape postcondition of prove_with_rng). KNOWN FINDING: for bits*aggregation == 1 the prover outputs zero "
+                 "rounds and the decoder refuses its own encoding (obligation C15.roundtrip_zero_rounds, listed in known_findings.txt). The serde wrappers (two forwarding calls "
+                 "behind serde's generic machinery) are not under contract.",
         "assumptions": [
             "Scalar::from_canonical_bytes returns Some(s) iff the 32 bytes are canonical (uninterpreted predicate is_canonical) and then s.as_bytes() are those bytes (dalek contract)",
             "slice::chunks_exact and itertools::tuples are modelled by adapters with explicit cursor state (prelude/90_codec.rs); the pair adapter's next() is verified, its buffer semantics (odd leftover kept) is itertools' documented behaviour",
             "serde Serialize/Deserialize impls forward to to_bytes/from_bytes and are not extracted",
-            "the pure round-trip lemmas (enc(decode(b)) == b, decode(enc(p)) == p for well-formed p) are listed in coverage.obligation_ids only once written; the zero-round finding of DESIGN section 8.2 belongs to them",
+            "encodings of scalars are canonical and injective, encodings of compressed points injective (dalek invariants, axioms in spec/lemmas_c15.rs)",
         ],
     },
     "C06": {
